@@ -327,7 +327,9 @@ func (x *c18World) apply(op string) {
 			x.b.Sim.Remove(k, c18NS(k), "x")
 		}
 		if x.running[r] {
-			x.b.Deliver(k, c18NS(k), "x", false)
+			// (in the two-version and cluster-scoped configurations a deletion reaches the informer as a tombstone -
+			// DeletedFinalStateUnknown, what a relist after a dropped watch produces - instead of the object)
+			x.b.Deliver(k, c18NS(k), "x", parts[0] == "objDelete" && (c18Dual || c18Cluster))
 			o := x.b.Sim.Get(k, c18NS(k), "x")
 			var ev string
 			switch parts[0] {
